@@ -221,7 +221,8 @@ CONTEXTS = [
     ('index-head', 'CREATE UNIQUE INDEX %s (V);\nINSERT INTO TI VALUES (1);'),
 ]
 LENGTH2_ONLY = ('named-names', 'attributes', 'rop-cardinality-and-kind', 'rop-phrase', 'index-attributes', 'index-head')
-CONTEXT_ALPHABET = ALPHABET[:-3] + ['TI', 'T2', 'V', 'J', 'STRING', '-1', '0', "''", '"x"', 'R7']
+CONTEXT_ALPHABET_3 = ALPHABET[:-3] + ['TI', 'T2', 'V', 'J', 'STRING', '-1', '0', "''", '"x"', 'R7']
+CONTEXT_ALPHABET = CONTEXT_ALPHABET_3 + ['ti', 't2', 'v', 'j', 'i']     # the declared names in another letter case
 
 
 # --------------------------------------------------------------------------------------------------- seeds and edits
@@ -260,6 +261,15 @@ SEEDS = [
     "CREATE UNIQUE INDEX I2 ON A (Id, Code);\n"
     "INSERT INTO A VALUES (1180591620717411303424, 'k');\nINSERT INTO B VALUES (\"ffffffff-ffff-ffff-ffff-ffffffffffff\");\n"
     "INSERT INTO AB VALUES (1180591620717411303424, 'k', \"ffffffff-ffff-ffff-ffff-ffffffffffff\", 100000000000000000000.000000);\n",
+    # names spelled in another letter case than their CREATE TABLE in named / positional INSERT, CREATE ROP, CREATE UNIQUE INDEX
+    "CREATE TABLE Person (Id UNIQUE_ID, Nick STRING, Age INTEGER);\n"
+    "CREATE TABLE Cat (Id UNIQUE_ID, Name STRING, Owner_Id UNIQUE_ID, Lives INTEGER);\n"
+    "CREATE ROP REF_ID R8 FROM MC CAT (OWNER_ID) PHRASE 'is owned by' TO 1 person (id) PHRASE 'owns';\n"
+    "CREATE UNIQUE INDEX i1 ON PERSON (ID);\nCREATE UNIQUE INDEX I2 ON cat (name, id);\n"
+    "INSERT INTO person (NICK, id) VALUES ('p', \"00000000-0000-0000-0000-000000000001\");\n"
+    "INSERT INTO PERSON VALUES (\"00000000-0000-0000-0000-000000000002\", 'q', 30);\n"
+    "INSERT INTO cAT (name, ID, owner_id, LIVES) VALUES ('c', \"00000000-0000-0000-0000-000000000003\", "
+    "\"00000000-0000-0000-0000-000000000001\", 9);\n",
 ]
 
 _TOKEN = re.compile(r"""(?P<comment>--[^\n]*\n?)|(?P<string>'(?:''|[^'])*')|(?P<guid>"[^"\n]*")|(?P<fraction>\d+\.\d+)|"""
@@ -282,6 +292,9 @@ def join(tokens):
     return s
 
 
+RECASE = {'upper': lambda t: t.upper(), 'lower': lambda t: t.lower(), 'swap': lambda t: t.swapcase()}
+RESERVED = set(['CREATE', 'TABLE', 'ROP', 'REF_ID', 'FROM', 'TO', 'PHRASE', 'UNIQUE', 'INDEX', 'ON', 'INSERT', 'INTO', 'VALUES',
+                'TRUE', 'FALSE', 'BOOLEAN', 'INTEGER', 'REAL', 'STRING', 'UNIQUE_ID', 'M', 'MC', 'C'])
 FLIPS = ['7', '-7', '7.25', '-7.25', "'flip'", GUID1, 'TRUE', 'false', 'Word', '"not-a-guid"', "''", '99999999999999999999999']
 
 
@@ -309,6 +322,25 @@ def edits(seed_text):
         for f in FLIPS:
             if f != toks[i][1]:
                 yield ('flip:%s' % f, i, join(toks[:i] + [('x', f)] + toks[i + 1:]))
+    # letter case: one word at a time, and all names of one statement / of the whole text at once (the reserved words,
+    # type names included, keep their spelling there)
+    for i, (k, t) in enumerate(toks):
+        if k == 'word':
+            for how in RECASE:
+                if RECASE[how](t) != t:
+                    yield ('recase-%s' % how, i, join(toks[:i] + [(k, RECASE[how](t))] + toks[i + 1:]))
+    starts = [0] + [i + 1 for i, (k, t) in enumerate(toks) if t == ';' and i + 1 < n]
+    for si, b in enumerate(starts):
+        e = starts[si + 1] if si + 1 < len(starts) else n
+        for how in RECASE:
+            out = [((k, RECASE[how](t)) if b <= i < e and k == 'word' and t.upper() not in RESERVED else (k, t))
+                   for i, (k, t) in enumerate(toks)]
+            if out != toks:
+                yield ('recase-statement-%s' % how, b, join(out))
+    for how in RECASE:
+        out = [((k, RECASE[how](t)) if k == 'word' and t.upper() not in RESERVED else (k, t)) for k, t in toks]
+        if out != toks:
+            yield ('recase-all-%s' % how, 0, join(out))
 
 
 OTHER_BASE = ["CREATE TABLE ZZ (I INTEGER);\nINSERT INTO ZZ VALUES (7);\n"]
@@ -318,10 +350,11 @@ OTHER_BASE = ["CREATE TABLE ZZ (I INTEGER);\nINSERT INTO ZZ VALUES (7);\n"]
 
 @item('single-edits', stands_in_for=['xtuml.load.ModelLoader.input', 'xtuml.load.ModelLoader.build_metamodel',
                                      'xtuml.load.deserialize_value', 'xtuml.load.ModelLoader.populate_instances'], shards=3, weight=2,
-      bound='6 valid seed texts (all statement kinds, named/positional/inferred inserts, phrases, keyword identifiers, '
-            'comments): at every token position delete, duplicate, swap with next, truncate after, truncate inside; every '
-            'value token replaced by 12 literals of other lexical classes; on an empty loader and on a loader holding an '
-            'unrelated accepted schema')
+      bound='7 valid seed texts (all statement kinds, named/positional/inferred inserts, phrases, keyword identifiers, '
+            'comments, names in another letter case than declared): at every token position delete, duplicate, swap with '
+            'next, truncate after, truncate inside; every value token replaced by 12 literals of other lexical classes; '
+            'every word re-spelled in upper / lower / swapped case, alone, together with all names of its statement, and '
+            'with all names of the text; on an empty loader and on a loader holding an unrelated accepted schema')
 def single_edits(ctx):
     n = 0
     for si, seed in enumerate(SEEDS):
@@ -374,8 +407,8 @@ def token_sequences(ctx):
                                           'xtuml.load.ModelLoader.populate_connections'], shards=4, weight=2,
       bound='15 statement contexts with a hole (value list of each core type, named value list, name list, second row of an '
             'inferred class, attribute list, key lists / cardinality+class / phrase of an association, index head / attributes) filled with all token sequences of length '
-            '<=2 (quick) / <=3 (thorough; 3 only for the 9 value-list and key-list contexts) over 42 token spellings; one loader with typed '
-            'classes, renewed after every accepted text')
+            '<=2 (quick) / <=3 (thorough; 3 only for the 9 value-list and key-list contexts) over 47 token spellings (the declared class '
+            'and attribute names also in lower case; length 3 without these 5); one loader with typed classes, renewed after every accepted text')
 def tokens_in_context(ctx):
     maxlen = 2 if ctx.quick else 3
     s = Session(ctx, [TYPED])
@@ -384,7 +417,7 @@ def tokens_in_context(ctx):
         for cname, template in CONTEXTS:
             if length == 3 and cname in LENGTH2_ONLY:
                 continue
-            for seq in itertools.product(CONTEXT_ALPHABET, repeat=length):
+            for seq in itertools.product(CONTEXT_ALPHABET if length < 3 else CONTEXT_ALPHABET_3, repeat=length):
                 i += 1
                 if i % ctx.nshards != ctx.shard:
                     continue
